@@ -128,6 +128,8 @@ def _alphabet() -> list[L]:
         L("0.0005 Mark: t", "Mark", "threshold"),
         L("Wait: 0.2s", "Wait", "duration"),
         L("Wait: 0.2 s", "Wait", "duration-spaced"),
+        L("Wait: 300 ms", "Wait", "other-time-unit"),
+        L("Wait: 0.0001 h", "Wait", "duration-h"),
         L("Wait: 1", "Wait", "no-unit"),
         L("Wait: 1 L", "Wait", "other-quantity"),
         L("Wait: abc", "Wait", "non-numeric"),
@@ -155,9 +157,11 @@ def _alphabet() -> list[L]:
         L("Inst", "Inst", "none", arg=False),
         L("Inst: 1", "Inst", "unexpected-argument"),
         L("Pause: 0.2s", "Pause", "duration"),
+        L("Pause: 300 ms", "Pause", "other-time-unit"),
         L("Pause: x", "Pause", "non-numeric"),
         L("Pause: 1", "Pause", "no-unit"),
         L("Hold: 0.2s", "Hold", "duration"),
+        L("Hold: 300 ms", "Hold", "other-time-unit"),
         L("Hold: 1 L", "Hold", "other-quantity"),
         L("Simulate: In1 = 1", "Simulate", "unitless-tag:no-unit"),
         L("Simulate: In1 = 1 degC", "Simulate", "unitless-tag:unit"),
